@@ -20,7 +20,7 @@ package bus
 
 //@ func (*Bus).EaRead
 //@   params b a
-//@   property C13
+//@   property C13 C11
 //@   pure emulator/memory.Memory.Read
 //@   requires a < 0x1000000
 //@   panics isnil(b.segment[a>>4])
@@ -31,7 +31,7 @@ package bus
 
 //@ func (*Bus).EaWrite
 //@   params b a value
-//@   property C13
+//@   property C13 C11
 //@   requires a < 0x1000000
 //@   panics isnil(b.segment[a>>4])
 //@   ensures b.EA == a && b.Write
